@@ -62,6 +62,12 @@ def check(ctx: Ctx):
 
     c03._guarded(ctx, "R10.3", c10.check_crop_mask)
     c03._guarded(ctx, "R09.1", c09.check_codec_width_relational)
+    # results of later evaluations (another group, a flipped copy, the exchanged pair, a second
+    # threshold) are only meaningful if no step writes into the caller's arrays (R15.8)
+    from . import c15 as _c15
+    from . import c03 as _c03
+
+    _c03._guarded(ctx, "R15.8", _c15.check_param_aliasing)
 
 
 _R = "panoptica/panoptica_result.py"
